@@ -2276,7 +2276,9 @@ mod fields_ext {
                 _ => {}
             }
             Ok(match ty {
-                syn::Type::Tuple(syn::TypeTuple { elems, .. }) => {
+                syn::Type::Tuple(syn::TypeTuple { elems, .. })
+                    if self.len() > 1 || elems.len() == self.len() =>
+                {
                     Either::Left(elems.iter())
                 }
                 other => Either::Right(iter::once(other)),
